@@ -1357,4 +1357,550 @@ theorem sorted_sortByKey (l : Stoich) : SortedKeys (sortByKey l) := by
   | cons x t ih => exact sorted_insertSorted x _ ih
 
 
+/-! ### when do the operations succeed -/
+
+theorem anyEffect_iff (e : Equil α) : e.anyEffect = true ↔ ∃ k, e.net k ≠ 0 := by
+  unfold Equil.anyEffect
+  rw [List.any_eq_true]
+  constructor
+  · rintro ⟨k, _, hk⟩; exact ⟨k, by simpa using hk⟩
+  · rintro ⟨k, hk⟩
+    refine ⟨k, ?_, by simpa using hk⟩
+    by_contra hn
+    unfold Equil.keys at hn
+    simp only [List.mem_append, not_or] at hn
+    apply hk
+    unfold Equil.net
+    rw [get_eq_zero_of_not_mem _ _ hn.1.1.1, get_eq_zero_of_not_mem _ _ hn.1.1.2,
+        get_eq_zero_of_not_mem _ _ hn.1.2, get_eq_zero_of_not_mem _ _ hn.2]
+    simp
+
+theorem construct_eq (d : Bool) (reac prod ir ip : Stoich) (K : Option α) :
+    construct d reac prod K ir ip =
+      if (⟨initStoich d reac, initStoich d prod, initStoich d ir, initStoich d ip, K⟩ : Equil α).anyEffect
+      then .ok ⟨initStoich d reac, initStoich d prod, initStoich d ir, initStoich d ip, K⟩
+      else .error "ValueError" := rfl
+
+/-- the object `__rmul__` hands to the constructor -/
+def rmulResult (n : Int) (e : Equil α) (param : Option α) : Equil α :=
+  if n < 0 then
+    ⟨sortByKey (scale n.natAbs e.prod), sortByKey (scale n.natAbs e.reac),
+     sortByKey (scale n.natAbs e.inactProd), sortByKey (scale n.natAbs e.inactReac), param⟩
+  else
+    ⟨sortByKey (scale n.natAbs e.reac), sortByKey (scale n.natAbs e.prod),
+     sortByKey (scale n.natAbs e.inactReac), sortByKey (scale n.natAbs e.inactProd), param⟩
+
+theorem net_rmulResult (n : Int) (e : Equil α) (param : Option α) (k : String) :
+    (rmulResult n e param).net k = n * e.net k := by
+  unfold rmulResult
+  by_cases hn : n < 0
+  · rw [if_pos hn]
+    simp only [Equil.net, get_sortByKey, get_scale]
+    have hm : ((n.natAbs : Nat) : Int) = -n := by omega
+    simp only [Nat.cast_mul, hm]; ring
+  · rw [if_neg hn]
+    simp only [Equil.net, get_sortByKey, get_scale]
+    have hm : ((n.natAbs : Nat) : Int) = n := by omega
+    simp only [Nat.cast_mul, hm]; ring
+
+/-- the object `__add__` hands to the constructor -/
+def addResult (a b : Equil α) (param : Option α) : Equil α :=
+  ⟨sortByKey (addReac a b), sortByKey (addProd a b), [], [], param⟩
+
+theorem net_addResult (a b : Equil α) (param : Option α) (k : String) :
+    (addResult a b param).net k = a.activeNet k + b.activeNet k := by
+  simp only [addResult, Equil.net, get_sortByKey, get_addReac, get_addProd, get_nil]
+  show _ = addN a b k
+  generalize addN a b k = N
+  split <;> split <;> omega
+
+section
+variable [Mul α] [Inv α] [NatCast α] [DecidableEq α]
+
+theorem rmul_eq (n : Int) (e : Equil α) :
+    rmul n e = (rmulParam n e.K >>= fun param =>
+      if (rmulResult n e param).anyEffect then .ok (rmulResult n e param) else .error "ValueError") := by
+  unfold rmul rmulResult
+  simp only [construct_eq, initStoich, if_true]
+  congr 1
+  funext param
+  by_cases hn : n < 0 <;> simp [hn]
+
+theorem add_eq (a b : Equil α) :
+    add a b = (addParam a.K b.K >>= fun param =>
+      if (addResult a b param).anyEffect then .ok (addResult a b param) else .error "ValueError") := by
+  unfold add addResult
+  simp only [construct_eq, initStoich, if_true]
+  rfl
+end
+
+section field
+variable [Field α] [DecidableEq α]
+
+theorem powInt_isOk (x : α) (n : Int) : (∃ p, powInt x n = .ok p) ↔ (n < 0 → x ≠ 0) := by
+  unfold powInt
+  by_cases hn : n < 0
+  · by_cases hx : x = 0
+    · simp [hn, hx]
+    · simp [hn, hx]
+  · simp [hn]
+
+theorem rmulParam_isOk (n : Int) (K : Option α) :
+    (∃ p, rmulParam n K = .ok p) ↔ (n < 0 → K ≠ some 0) := by
+  cases K with
+  | none => simp [rmulParam, pure, Except.pure]
+  | some k =>
+    simp only [rmulParam, ne_eq, Option.some.injEq]
+    rw [← powInt_isOk k n]
+    constructor
+    · rintro ⟨p, hp⟩
+      obtain ⟨q, hq, _⟩ := bind_ok hp
+      exact ⟨q, hq⟩
+    · rintro ⟨q, hq⟩
+      exact ⟨some q, by rw [hq]; rfl⟩
+
+/-- `n * e` returns an equilibrium exactly when `n ≠ 0`, `e` has a net effect, and no `0 ** negative` occurs -/
+theorem rmul_isOk (n : Int) (e : Equil α) :
+    (∃ r, rmul n e = .ok r) ↔ n ≠ 0 ∧ (∃ k, e.net k ≠ 0) ∧ (n < 0 → e.K ≠ some 0) := by
+  constructor
+  · rintro ⟨r, h⟩
+    refine ⟨rmul_ne_zero h, ?_, ?_⟩
+    · obtain ⟨_, _, _, hany⟩ := rmul_ok h
+      obtain ⟨k, hk⟩ := (anyEffect_iff r).1 hany
+      rw [net_rmul' h] at hk
+      exact ⟨k, fun h0 => hk (by rw [h0]; ring)⟩
+    · intro hn hK
+      exact (K_rmul' h).2 0 hK hn rfl
+  · rintro ⟨hn, ⟨k, hk⟩, hK⟩
+    obtain ⟨p, hp⟩ := (rmulParam_isOk n e.K).2 hK
+    refine ⟨rmulResult n e p, ?_⟩
+    rw [rmul_eq, hp]
+    show (if _ then _ else _) = _
+    rw [if_pos]
+    rw [anyEffect_iff]
+    exact ⟨k, by rw [net_rmulResult]; exact mul_ne_zero (by exact_mod_cast hn) hk⟩
+
+/-- `a + b` returns an equilibrium exactly when both or neither operand has a constant and the sum has a net effect -/
+theorem add_isOk (a b : Equil α) :
+    (∃ r, add a b = .ok r) ↔ (a.K = none ↔ b.K = none) ∧ ∃ k, a.activeNet k + b.activeNet k ≠ 0 := by
+  constructor
+  · rintro ⟨r, h⟩
+    refine ⟨?_, ?_⟩
+    · rcases K_add' h with ⟨h1, h2, _⟩ | ⟨x, y, h1, h2, _⟩
+      · simp [h1, h2]
+      · simp [h1, h2]
+    · obtain ⟨_, _, _, hany⟩ := add_ok h
+      obtain ⟨k, hk⟩ := (anyEffect_iff r).1 hany
+      rw [net_add' h] at hk
+      exact ⟨k, hk⟩
+  · rintro ⟨hK, k, hk⟩
+    have hp : ∃ p, addParam a.K b.K = .ok p := by
+      cases ha : a.K with
+      | none =>
+        have hb := hK.1 ha
+        rw [hb]; exact ⟨none, rfl⟩
+      | some x =>
+        cases hb : b.K with
+        | none => rw [hK.2 hb] at ha; cases ha
+        | some y => exact ⟨some (x * y), rfl⟩
+    obtain ⟨p, hp⟩ := hp
+    refine ⟨addResult a b p, ?_⟩
+    rw [add_eq, hp]
+    show (if _ then _ else _) = _
+    rw [if_pos]
+    rw [anyEffect_iff]
+    exact ⟨k, by rw [net_addResult]; exact hk⟩
+
+/-- `a - b` returns an equilibrium exactly when `-1 * b` does and the sum with it does -/
+theorem sub_isOk (a b : Equil α) :
+    (∃ r, sub a b = .ok r) ↔
+      (∃ k, b.net k ≠ 0) ∧ b.K ≠ some 0 ∧ (a.K = none ↔ b.K = none) ∧ ∃ k, a.activeNet k - b.activeNet k ≠ 0 := by
+  have key : ∀ nb, rmul (-1) b = .ok nb →
+      (((a.K = none ↔ nb.K = none) ∧ ∃ k, a.activeNet k + nb.activeNet k ≠ 0) ↔
+       ((a.K = none ↔ b.K = none) ∧ ∃ k, a.activeNet k - b.activeNet k ≠ 0)) := by
+    intro nb h
+    have hK := (K_rmul' h).1
+    have hn : nb.K = none ↔ b.K = none := by rw [hK]; cases b.K <;> simp
+    rw [hn]
+    have : ∀ k, a.activeNet k + nb.activeNet k = a.activeNet k - b.activeNet k := by
+      intro k; rw [activeNet_rmul h]; ring
+    simp only [this]
+  constructor
+  · rintro ⟨r, h⟩
+    obtain ⟨nb, h1, h2⟩ := sub_ok h
+    obtain ⟨_, he, hK⟩ := (rmul_isOk (-1) b).1 ⟨nb, h1⟩
+    obtain ⟨h3, h4⟩ := (key nb h1).1 ((add_isOk a nb).1 ⟨r, h2⟩)
+    exact ⟨he, hK (by omega), h3, h4⟩
+  · rintro ⟨he, hK, h3, h4⟩
+    obtain ⟨nb, h1⟩ := (rmul_isOk (-1) b).2 ⟨by omega, he, fun _ => hK⟩
+    obtain ⟨r, h2⟩ := (add_isOk a nb).2 ((key nb h1).2 ⟨h3, h4⟩)
+    refine ⟨r, ?_⟩
+    unfold sub
+    rw [h1]; exact h2
+
+end field
+
+theorem terms_ne_nil (t : EqExpr α) : t.terms ≠ [] := by
+  induction t with
+  | leaf e => simp [EqExpr.terms]
+  | scale n t ih => simpa [EqExpr.terms] using ih
+  | neg t ih => simpa [EqExpr.terms] using ih
+  | add a b iha _ => simp [EqExpr.terms, iha]
+  | sub a b iha _ => simp [EqExpr.terms, iha]
+
+section field
+variable [Field α] [DecidableEq α]
+
+/-- Closed-form success condition of an expression in terms of its operands only: at every scaling node the multiplier
+    is non-zero, the integer combination below it is not identically zero and no operand constant is 0 under a negative
+    multiplier; at every sum/difference either no operand has a constant or all have, and the combination does not
+    cancel completely (for a difference also the subtrahend itself must be scalable by −1). -/
+def EqExpr.Okay : EqExpr α → Prop
+  | .leaf _ => True
+  | .scale n t => t.Okay ∧ n ≠ 0 ∧ (∃ k, netSum t.terms k ≠ 0) ∧ (n < 0 → ∀ p ∈ t.terms, p.1.K ≠ some 0)
+  | .neg t => t.Okay ∧ (∃ k, netSum t.terms k ≠ 0) ∧ (∀ p ∈ t.terms, p.1.K ≠ some 0)
+  | .add a b => a.Okay ∧ b.Okay ∧ ((AllNone a.terms ∧ AllNone b.terms) ∨ (AllSome a.terms ∧ AllSome b.terms)) ∧
+      ∃ k, netSum a.terms k + netSum b.terms k ≠ 0
+  | .sub a b => a.Okay ∧ b.Okay ∧ (∃ k, netSum b.terms k ≠ 0) ∧ (∀ p ∈ b.terms, p.1.K ≠ some 0) ∧
+      ((AllNone a.terms ∧ AllNone b.terms) ∨ (AllSome a.terms ∧ AllSome b.terms)) ∧
+      ∃ k, netSum a.terms k - netSum b.terms k ≠ 0
+
+theorem okay_exp_ne_zero (t : EqExpr α) (h : t.Okay) : ∀ p ∈ t.terms, p.2 ≠ 0 := by
+  induction t with
+  | leaf e => intro p hp; simp [EqExpr.terms] at hp; rw [hp]; simp
+  | scale n t ih =>
+    intro p hp
+    obtain ⟨q, hq, rfl⟩ := List.mem_map.1 hp
+    exact mul_ne_zero h.2.1 (ih h.1 q hq)
+  | neg t ih =>
+    intro p hp
+    obtain ⟨q, hq, rfl⟩ := List.mem_map.1 hp
+    exact mul_ne_zero (by omega) (ih h.1 q hq)
+  | add a b iha ihb =>
+    intro p hp
+    rcases List.mem_append.1 hp with hp | hp
+    · exact iha h.1 p hp
+    · exact ihb h.2.1 p hp
+  | sub a b iha ihb =>
+    intro p hp
+    rcases List.mem_append.1 hp with hp | hp
+    · exact iha h.1 p hp
+    · obtain ⟨q, hq, rfl⟩ := List.mem_map.1 hp
+      exact mul_ne_zero (by omega) (ihb h.2.1 q hq)
+
+theorem Kprod_ne_zero (l : List (Equil α × Int)) (hexp : ∀ p ∈ l, p.2 ≠ 0) :
+    Kprod l ≠ 0 ↔ ∀ p ∈ l, Kof p.1 ≠ 0 := by
+  induction l with
+  | nil => simp [Kprod]
+  | cons x t ih =>
+    have ih' := ih (fun p hp => hexp p (List.mem_cons_of_mem _ hp))
+    simp only [Kprod, List.map_cons, List.prod_cons] at ih' ⊢
+    rw [mul_ne_zero_iff, ih', List.forall_mem_cons]
+    have : Kof x.1 ^ x.2 ≠ 0 ↔ Kof x.1 ≠ 0 := by
+      rw [ne_eq, ne_eq, zpow_eq_zero_iff (hexp x (by simp))]
+    rw [this]
+
+/-- the constant of a result is not 0 iff no operand constant is 0 -/
+theorem combo_K_ne_zero {l : List (Equil α × Int)} {x : Equil α} (hx : ComboSpec l x)
+    (hexp : ∀ p ∈ l, p.2 ≠ 0) : x.K ≠ some 0 ↔ ∀ p ∈ l, p.1.K ≠ some 0 := by
+  rcases hx.const with ⟨h1, h2⟩ | ⟨h1, h2⟩
+  · rw [h2]
+    constructor
+    · intro _ p hp; rw [h1 p hp]; simp
+    · intro _; simp
+  · rw [h2]
+    have : (some (Kprod l) ≠ some (0 : α)) ↔ Kprod l ≠ 0 := by simp
+    rw [this, Kprod_ne_zero l hexp]
+    constructor
+    · intro h p hp hK
+      apply h p hp
+      simp [Kof, hK]
+    · intro h p hp hK
+      have hs := h1 p hp
+      cases hk : p.1.K with
+      | none => exact hs hk
+      | some k =>
+        simp only [Kof, hk] at hK
+        exact h p hp (by rw [hk, hK])
+
+theorem combo_K_none {l : List (Equil α × Int)} {x : Equil α} (hx : ComboSpec l x) (hl : l ≠ []) :
+    (x.K = none ↔ AllNone l) ∧ (x.K ≠ none ↔ AllSome l) := by
+  obtain ⟨p, hp⟩ := List.exists_mem_of_ne_nil l hl
+  rcases hx.const with ⟨h1, h2⟩ | ⟨h1, h2⟩
+  · refine ⟨⟨fun _ => h1, fun _ => h2⟩, ⟨fun h => absurd h2 h, fun h => absurd (h1 p hp) (h p hp)⟩⟩
+  · refine ⟨⟨fun h => (by rw [h2] at h; cases h), fun h => absurd (h p hp) (h1 p hp)⟩, ⟨fun _ => h1, fun _ => by rw [h2]; simp⟩⟩
+
+theorem kagree_iff {l₁ l₂ : List (Equil α × Int)} {x y : Equil α} (hx : ComboSpec l₁ x) (hy : ComboSpec l₂ y)
+    (h1 : l₁ ≠ []) (h2 : l₂ ≠ []) :
+    (x.K = none ↔ y.K = none) ↔ ((AllNone l₁ ∧ AllNone l₂) ∨ (AllSome l₁ ∧ AllSome l₂)) := by
+  have a := combo_K_none hx h1
+  have b := combo_K_none hy h2
+  constructor
+  · intro h
+    by_cases hxn : x.K = none
+    · exact Or.inl ⟨a.1.1 hxn, b.1.1 (h.1 hxn)⟩
+    · exact Or.inr ⟨a.2.1 hxn, b.2.1 (fun hy' => hxn (h.2 hy'))⟩
+  · rintro (⟨p, q⟩ | ⟨p, q⟩)
+    · exact ⟨fun _ => b.1.2 q, fun _ => a.1.2 p⟩
+    · exact ⟨fun h => absurd h (a.2.2 p), fun h => absurd h (b.2.2 q)⟩
+
+theorem AllNone_scale {l : List (Equil α × Int)} (n : Int) :
+    AllNone (l.map (fun p => (p.1, n * p.2))) ↔ AllNone l := by
+  unfold AllNone
+  constructor
+  · intro h p hp; exact h (p.1, n * p.2) (List.mem_map.2 ⟨p, hp, rfl⟩)
+  · intro h p hp; obtain ⟨q, hq, rfl⟩ := List.mem_map.1 hp; exact h q hq
+
+theorem AllSome_scale {l : List (Equil α × Int)} (n : Int) :
+    AllSome (l.map (fun p => (p.1, n * p.2))) ↔ AllSome l := by
+  unfold AllSome
+  constructor
+  · intro h p hp; exact h (p.1, n * p.2) (List.mem_map.2 ⟨p, hp, rfl⟩)
+  · intro h p hp; obtain ⟨q, hq, rfl⟩ := List.mem_map.1 hp; exact h q hq
+
+/-- evaluation of an expression over operands without inactive parts succeeds exactly under the closed-form condition -/
+theorem eval_isOk (t : EqExpr α) : (∀ p ∈ t.terms, p.1.NoInact) → ((∃ r, t.eval = .ok r) ↔ t.Okay) := by
+  induction t with
+  | leaf e => intro _; simp [EqExpr.eval, EqExpr.Okay]
+  | scale n t ih =>
+    intro hl
+    have hl' : ∀ p ∈ t.terms, p.1.NoInact := fun p hp => hl (p.1, n * p.2) (List.mem_map.2 ⟨p, hp, rfl⟩)
+    constructor
+    · rintro ⟨r, h⟩
+      simp only [EqExpr.eval] at h
+      obtain ⟨x, hx, hr⟩ := bind_ok h
+      have hok := (ih hl').1 ⟨x, hx⟩
+      have hc := combo_eval t x hx hl'
+      obtain ⟨hn, ⟨k, hk⟩, hK⟩ := (rmul_isOk n x).1 ⟨r, hr⟩
+      refine ⟨hok, hn, ⟨k, by rw [← hc.net]; exact hk⟩, fun hneg => (combo_K_ne_zero hc (okay_exp_ne_zero t hok)).1 (hK hneg)⟩
+    · rintro ⟨hok, hn, ⟨k, hk⟩, hK⟩
+      obtain ⟨x, hx⟩ := (ih hl').2 hok
+      have hc := combo_eval t x hx hl'
+      obtain ⟨r, hr⟩ := (rmul_isOk n x).2 ⟨hn, ⟨k, by rw [hc.net]; exact hk⟩,
+        fun hneg => (combo_K_ne_zero hc (okay_exp_ne_zero t hok)).2 (hK hneg)⟩
+      exact ⟨r, by simp only [EqExpr.eval]; rw [hx]; exact hr⟩
+  | neg t ih =>
+    intro hl
+    have hl' : ∀ p ∈ t.terms, p.1.NoInact := fun p hp => hl (p.1, -1 * p.2) (List.mem_map.2 ⟨p, hp, rfl⟩)
+    constructor
+    · rintro ⟨r, h⟩
+      simp only [EqExpr.eval] at h
+      obtain ⟨x, hx, hr⟩ := bind_ok h
+      have hok := (ih hl').1 ⟨x, hx⟩
+      have hc := combo_eval t x hx hl'
+      obtain ⟨_, ⟨k, hk⟩, hK⟩ := (rmul_isOk (-1) x).1 ⟨r, hr⟩
+      exact ⟨hok, ⟨k, by rw [← hc.net]; exact hk⟩, (combo_K_ne_zero hc (okay_exp_ne_zero t hok)).1 (hK (by omega))⟩
+    · rintro ⟨hok, ⟨k, hk⟩, hK⟩
+      obtain ⟨x, hx⟩ := (ih hl').2 hok
+      have hc := combo_eval t x hx hl'
+      obtain ⟨r, hr⟩ := (rmul_isOk (-1) x).2 ⟨by omega, ⟨k, by rw [hc.net]; exact hk⟩,
+        fun _ => (combo_K_ne_zero hc (okay_exp_ne_zero t hok)).2 hK⟩
+      exact ⟨r, by simp only [EqExpr.eval]; rw [hx]; exact hr⟩
+  | add a b iha ihb =>
+    intro hl
+    simp only [EqExpr.terms, List.mem_append] at hl
+    have hla : ∀ p ∈ a.terms, p.1.NoInact := fun p hp => hl p (Or.inl hp)
+    have hlb : ∀ p ∈ b.terms, p.1.NoInact := fun p hp => hl p (Or.inr hp)
+    constructor
+    · rintro ⟨r, h⟩
+      simp only [EqExpr.eval] at h
+      obtain ⟨x, hx, h⟩ := bind_ok h
+      obtain ⟨y, hy, hr⟩ := bind_ok h
+      have hca := combo_eval a x hx hla
+      have hcb := combo_eval b y hy hlb
+      obtain ⟨hK, k, hk⟩ := (add_isOk x y).1 ⟨r, hr⟩
+      refine ⟨(iha hla).1 ⟨x, hx⟩, (ihb hlb).1 ⟨y, hy⟩,
+        (kagree_iff hca hcb (terms_ne_nil a) (terms_ne_nil b)).1 hK, k, ?_⟩
+      rw [← hca.net, ← hcb.net, net_eq_activeNet hca.noInact, net_eq_activeNet hcb.noInact]; exact hk
+    · rintro ⟨hoa, hob, hK, k, hk⟩
+      obtain ⟨x, hx⟩ := (iha hla).2 hoa
+      obtain ⟨y, hy⟩ := (ihb hlb).2 hob
+      have hca := combo_eval a x hx hla
+      have hcb := combo_eval b y hy hlb
+      obtain ⟨r, hr⟩ := (add_isOk x y).2 ⟨(kagree_iff hca hcb (terms_ne_nil a) (terms_ne_nil b)).2 hK, k, by
+        rw [← net_eq_activeNet hca.noInact, ← net_eq_activeNet hcb.noInact, hca.net, hcb.net]; exact hk⟩
+      exact ⟨r, by simp only [EqExpr.eval]; rw [hx, hy]; exact hr⟩
+  | sub a b iha ihb =>
+    intro hl
+    simp only [EqExpr.terms, List.mem_append] at hl
+    have hla : ∀ p ∈ a.terms, p.1.NoInact := fun p hp => hl p (Or.inl hp)
+    have hlb : ∀ p ∈ b.terms, p.1.NoInact := fun p hp => hl (p.1, -1 * p.2) (Or.inr (List.mem_map.2 ⟨p, hp, rfl⟩))
+    constructor
+    · rintro ⟨r, h⟩
+      simp only [EqExpr.eval] at h
+      obtain ⟨x, hx, h⟩ := bind_ok h
+      obtain ⟨y, hy, hr⟩ := bind_ok h
+      have hca := combo_eval a x hx hla
+      have hcb := combo_eval b y hy hlb
+      have hob := (ihb hlb).1 ⟨y, hy⟩
+      obtain ⟨⟨k₁, hk₁⟩, hK0, hK, k, hk⟩ := (sub_isOk x y).1 ⟨r, hr⟩
+      refine ⟨(iha hla).1 ⟨x, hx⟩, hob, ⟨k₁, by rw [← hcb.net]; exact hk₁⟩,
+        (combo_K_ne_zero hcb (okay_exp_ne_zero b hob)).1 hK0,
+        (kagree_iff hca hcb (terms_ne_nil a) (terms_ne_nil b)).1 hK, k, ?_⟩
+      rw [← hca.net, ← hcb.net, net_eq_activeNet hca.noInact, net_eq_activeNet hcb.noInact]; exact hk
+    · rintro ⟨hoa, hob, ⟨k₁, hk₁⟩, hK0, hK, k, hk⟩
+      obtain ⟨x, hx⟩ := (iha hla).2 hoa
+      obtain ⟨y, hy⟩ := (ihb hlb).2 hob
+      have hca := combo_eval a x hx hla
+      have hcb := combo_eval b y hy hlb
+      obtain ⟨r, hr⟩ := (sub_isOk x y).2 ⟨⟨k₁, by rw [hcb.net]; exact hk₁⟩,
+        (combo_K_ne_zero hcb (okay_exp_ne_zero b hob)).2 hK0,
+        (kagree_iff hca hcb (terms_ne_nil a) (terms_ne_nil b)).2 hK, k, by
+        rw [← net_eq_activeNet hca.noInact, ← net_eq_activeNet hcb.noInact, hca.net, hcb.net]; exact hk⟩
+      exact ⟨r, by simp only [EqExpr.eval]; rw [hx, hy]; exact hr⟩
+
+end field
+
+/-! ### positivity in the presence of zero coefficients -/
+
+/-- the operand an expression consists of when it only scales/negates it (`none` once a sum or difference occurs) -/
+def EqExpr.core : EqExpr α → Option (Equil α)
+  | .leaf e => some e
+  | .scale _ t => t.core
+  | .neg t => t.core
+  | .add _ _ => none
+  | .sub _ _ => none
+
+section
+variable [Mul α] [Inv α] [NatCast α] [DecidableEq α]
+
+/-- scaling neither creates nor removes zero coefficients -/
+theorem rmul_positive_iff {n : Int} {e r : Equil α} (h : rmul n e = .ok r) : r.Positive ↔ e.Positive := by
+  refine ⟨?_, rmul_positive h⟩
+  intro hp
+  have hm : 0 < n.natAbs := by have := rmul_ne_zero h; omega
+  obtain ⟨param, _, hr, _⟩ := rmul_ok h
+  have key : ∀ l : Stoich, (∀ kv ∈ sortByKey (scale n.natAbs l), 0 < kv.2) → ∀ kv ∈ l, 0 < kv.2 := by
+    intro l hl kv hkv
+    have := hl (kv.1, kv.2 * n.natAbs) ((mem_sortByKey _ _).2 (mem_scale.2 ⟨kv, hkv, rfl⟩))
+    exact Nat.pos_of_mul_pos_right this
+  unfold Equil.Positive at hp ⊢
+  simp only [List.mem_append] at hp ⊢
+  by_cases hn : n < 0
+  · rw [if_pos hn] at hr; subst hr
+    rintro kv (((h1 | h1) | h1) | h1)
+    · exact key _ (fun x hx => hp x (Or.inl (Or.inl (Or.inr hx)))) kv h1
+    · exact key _ (fun x hx => hp x (Or.inl (Or.inl (Or.inl hx)))) kv h1
+    · exact key _ (fun x hx => hp x (Or.inr hx)) kv h1
+    · exact key _ (fun x hx => hp x (Or.inl (Or.inr hx))) kv h1
+  · rw [if_neg hn] at hr; subst hr
+    rintro kv (((h1 | h1) | h1) | h1)
+    · exact key _ (fun x hx => hp x (Or.inl (Or.inl (Or.inl hx)))) kv h1
+    · exact key _ (fun x hx => hp x (Or.inl (Or.inl (Or.inr hx)))) kv h1
+    · exact key _ (fun x hx => hp x (Or.inl (Or.inr hx))) kv h1
+    · exact key _ (fun x hx => hp x (Or.inr hx)) kv h1
+
+/-- a listed zero coefficient of the operand is still listed (with 0) after scaling, on the side the operand's side became -/
+theorem rmul_keeps_zero {n : Int} {e r : Equil α} (h : rmul n e = .ok r) (k : String) :
+    ((k, 0) ∈ e.reac → (k, 0) ∈ (if n < 0 then r.prod else r.reac)) ∧
+    ((k, 0) ∈ e.prod → (k, 0) ∈ (if n < 0 then r.reac else r.prod)) := by
+  obtain ⟨param, _, hr, _⟩ := rmul_ok h
+  have key : ∀ l : Stoich, (k, 0) ∈ l → (k, 0) ∈ sortByKey (scale n.natAbs l) := by
+    intro l hl
+    exact (mem_sortByKey _ _).2 (mem_scale.2 ⟨(k, 0), hl, by simp⟩)
+  by_cases hn : n < 0
+  · rw [if_pos hn] at hr; subst hr; simp only [hn, if_true]; exact ⟨key _, key _⟩
+  · rw [if_neg hn] at hr; subst hr; simp only [hn, if_false]; exact ⟨key _, key _⟩
+
+/-- positivity of the result of ANY expression: unconditional as soon as a sum or difference occurs in it
+    (the last sum nets, later scalings keep positivity); otherwise the expression is a scaled operand and the result is
+    positive exactly when that operand is (zero coefficients, which the constructor accepts, stay listed). -/
+theorem positive_eval_iff (t : EqExpr α) : ∀ r, t.eval = .ok r →
+    (r.Positive ↔ match t.core with | none => True | some e => e.Positive) := by
+  induction t with
+  | leaf e =>
+    intro r h
+    simp only [EqExpr.eval] at h
+    injection h with h; subst h
+    simp [EqExpr.core]
+  | scale n t ih =>
+    intro r h
+    simp only [EqExpr.eval] at h
+    obtain ⟨x, hx, hr⟩ := bind_ok h
+    rw [rmul_positive_iff hr]
+    exact ih x hx
+  | neg t ih =>
+    intro r h
+    simp only [EqExpr.eval] at h
+    obtain ⟨x, hx, hr⟩ := bind_ok h
+    rw [rmul_positive_iff hr]
+    exact ih x hx
+  | add a b _ _ =>
+    intro r h
+    simp only [EqExpr.eval] at h
+    obtain ⟨x, _, h⟩ := bind_ok h
+    obtain ⟨y, _, hr⟩ := bind_ok h
+    simp only [EqExpr.core, iff_true]
+    exact (netted_add hr).positive
+  | sub a b _ _ =>
+    intro r h
+    simp only [EqExpr.eval] at h
+    obtain ⟨x, _, h⟩ := bind_ok h
+    obtain ⟨y, _, hr⟩ := bind_ok h
+    obtain ⟨ny, _, hr⟩ := sub_ok hr
+    simp only [EqExpr.core, iff_true]
+    exact (netted_add hr).positive
+
+/-! ### histories that re-use objects are expression trees -/
+
+theorem refAt_map (exprs : List (EqExpr α)) (i : Nat) (a : EqExpr α) (h : exprs[i]? = some a) :
+    refAt (exprs.map EqExpr.eval) i = a.eval := by
+  unfold refAt
+  rw [List.getElem?_map, h]
+  rfl
+
+theorem runStep_unfold (exprs : List (EqExpr α)) (s : Step) (t : EqExpr α) (h : unfoldStep exprs s = some t) :
+    runStep (exprs.map EqExpr.eval) s = t.eval := by
+  cases s with
+  | scale n i =>
+    simp only [unfoldStep, Option.map_eq_some_iff] at h
+    obtain ⟨a, ha, rfl⟩ := h
+    simp only [runStep, EqExpr.eval, refAt_map exprs i a ha]
+  | neg i =>
+    simp only [unfoldStep, Option.map_eq_some_iff] at h
+    obtain ⟨a, ha, rfl⟩ := h
+    simp only [runStep, EqExpr.eval, refAt_map exprs i a ha]
+  | add i j =>
+    simp only [unfoldStep] at h
+    split at h
+    · rename_i a b ha hb
+      injection h with h; subst h
+      simp only [runStep, EqExpr.eval, refAt_map exprs i a ha, refAt_map exprs j b hb]
+    · cases h
+  | sub i j =>
+    simp only [unfoldStep] at h
+    split at h
+    · rename_i a b ha hb
+      injection h with h; subst h
+      simp only [runStep, EqExpr.eval, refAt_map exprs i a ha, refAt_map exprs j b hb]
+    · cases h
+
+/-- running a history over shared objects gives, for every statement, exactly the value of the expression tree the
+    statement denotes: in the model an object never changes, however often it is used. -/
+theorem runHistory_unfold (steps : List Step) : ∀ (exprs ts : List (EqExpr α)),
+    unfoldHistory exprs steps = some ts → runHistory (exprs.map EqExpr.eval) steps = ts.map EqExpr.eval := by
+  induction steps with
+  | nil =>
+    intro exprs ts h
+    simp only [unfoldHistory] at h
+    injection h with h; subst h
+    rfl
+  | cons s rest ih =>
+    intro exprs ts h
+    simp only [unfoldHistory] at h
+    split at h
+    · rename_i e he
+      have := ih (exprs ++ [e]) ts h
+      simp only [runHistory]
+      rw [runStep_unfold exprs s e he]
+      simpa using this
+    · cases h
+
+end
+
+/-- grouping occurrences of one operand: `K^n * K^m = K^(n+m)` holds for `K ≠ 0` (Mathlib's `zpow_add₀`; it fails for
+    `K = 0`, `n = -m ≠ 0`) — the only place where an operand constant has to be non-zero -/
+theorem Kpow_group {α : Type} [Field α] (K : α) (hK : K ≠ 0) (n m : Int) : K ^ n * K ^ m = K ^ (n + m) :=
+  (zpow_add₀ hK n m).symm
+
 end ChemModel.Equilibria
